@@ -110,10 +110,14 @@ def windowMs (mx : Option Str) : Int :=
     | some v => if v > 0 then v * 1000 else 0
     | none => 0
 
-/-- the listener accepted `m` as device `e.dev` at the description URL -/
+/-- the listener accepted `m` as device `e.dev` at the description URL.  The clause presupposes a
+    description URL the listener does not refuse by design (`validLocation` = the listener's own
+    `is_usable_location`: a server on `localhost` / loopback / IPv4 link-local is ignored on
+    purpose — that is the tracker properties' business); for such a URL nothing is demanded here. -/
 def heardOk (loc : Str) (kind : Nat) (m : ObsMsg) (e : Exp) : Bool :=
-  m.heard.accepted && m.heard.udn == e.dev && m.heard.location == loc && m.heard.dst == m.st
-  && m.heard.kind == kind
+  !validLocation loc
+  || (m.heard.accepted && m.heard.udn == e.dev && m.heard.location == loc && m.heard.dst == m.st
+      && m.heard.kind == kind)
 
 def isMSearch (r : Req) : Bool := r.line == mSearchLine && r.man == some ssdpDiscover
 
